@@ -72,6 +72,9 @@ pub struct World {
     /// certificate hashes in order of first appearance in the store
     pub cert_order: RefCell<Vec<String>>,
     pub restarts: u32,
+    /// (signer, entity) pairs for which the aggregator has acknowledged a signature (201 / 202):
+    /// an honest signer signs each beacon once and does not send it again once acknowledged
+    pub acknowledged: RefCell<BTreeSet<(usize, String)>>,
     /// controller of the verif_hooks points (installed on this thread for the life of the world)
     pub ctl: crate::ctl::Ctl,
 }
@@ -184,6 +187,7 @@ impl World {
             registered_in_epoch: RefCell::new(BTreeMap::new()),
             cert_order: RefCell::new(vec![]),
             restarts: 0,
+            acknowledged: RefCell::new(BTreeSet::new()),
             ctl,
         };
         // init_state_from_fixture_for_genesis stores every signer under epochs 0 and 1, i.e. as if
@@ -359,6 +363,17 @@ impl World {
             .reply(&self.routes)
             .await;
         resp.status().as_u16()
+    }
+
+    /// the epoch the aggregator serves in its epoch settings (what a signer node reads before it
+    /// signs): None while the route cannot answer
+    pub async fn served_epoch(&self) -> Option<u64> {
+        let resp = warp::test::request().method("GET").path("/aggregator/epoch-settings").reply(&self.routes).await;
+        if !resp.status().is_success() {
+            return None;
+        }
+        let v: serde_json::Value = serde_json::from_slice(resp.body()).ok()?;
+        v.get("epoch").and_then(|e| e.as_u64())
     }
 
     pub async fn all_certificates(&self) -> Vec<Certificate> {
